@@ -69,3 +69,7 @@ Theorem C07_swap_is_the_regenerated_one :
   forall c st ot, fl c = FSV -> BaseTV_u32.InRange st -> BaseTV_u32.InRange ot ->
     BaseTV_u32.two c (Base_u32.sv_swap_impl st ot) = Some (fst (b_swap c st ot), snd (b_swap c st ot), []).
 Proof. exact BaseTV_u32.sv_swap_impl_tv. Qed.
+Theorem C07_reserve_is_the_regenerated_one_u8 :
+  forall c, cM c = 255 -> 255 < 2 ^ 62 -> mk_wrap c = wrap_u8 -> forall st n, fl c = FSV -> Words.WInv 255 (cN c) st -> 0 <= n <= 255 ->
+    BaseTV_u8.one c (Base_u8.sv_reserve st n) = (if b_capacity c st <? n then b_grow c st n true else Some (st, [])).
+Proof. exact BaseTV_u8.sv_reserve_tv. Qed.
